@@ -9,6 +9,7 @@
 //!   fl    = (fl (<bits> <bits'>)*)  serde_json's text layer on the floats of the case, measured by
 //!           `generate` with the real serde_json: printing f64 <bits> and parsing the text back yields
 //!           <bits'> (only the pairs that differ).  The text layer is a parameter of the model.
+//!   (size-boundary cases: every collection-like type with 0, 1, 2, 1023, 1024, 1025, 4096, 10000 members)
 //!   ty    = req | reply | info | desc | descargs | set | mapstr | mapint | mapoptstr | mapval
 //!         | mapmapstr | mapset
 //!   tval  = t | f | (i <int>) | (d <f64 bits>) | x<hex> | (j <json>) | - | (some tval)
@@ -778,12 +779,125 @@ fn corpus(name: &str) -> Vec<Sx> {
         .collect()
 }
 
+/// size-boundary values of every collection-like wire type: 0, 1, 2 and around the powers of two where
+/// buffers, pre-allocation caps and length hints change behaviour
+pub const SIZES: &[usize] = &[0, 1, 2, 1023, 1024, 1025, 4096, 10000];
+
+fn nkey(i: usize) -> String {
+    format!("k{:05}", i) // fixed width: ascending in byte order
+}
+
+fn sized_value(ty: &str, n: usize) -> Option<Sx> {
+    let keys = || (0..n).map(nkey);
+    let map = |f: &dyn Fn(usize) -> Sx| {
+        let mut l = vec![sx::atom("m")];
+        l.extend(keys().enumerate().map(|(i, k)| sx::list(vec![sx::xs(&k), f(i)])));
+        sx::list(l)
+    };
+    let jint = |i: usize| sx::list(vec![sx::atom("i"), sx::nat(i)]);
+    let big_obj = |f: &dyn Fn(usize) -> Sx| {
+        let mut l = vec![sx::atom("o")];
+        l.extend(keys().enumerate().map(|(i, k)| sx::list(vec![sx::xs(&k), f(i)])));
+        sx::list(vec![sx::atom("some"), sx::list(vec![sx::atom("j"), sx::list(l)])])
+    };
+    let big_arr = || {
+        let mut l = vec![sx::atom("a")];
+        l.extend((0..n).map(jint));
+        sx::list(vec![sx::atom("some"), sx::list(vec![sx::atom("j"), sx::list(l)])])
+    };
+    Some(match ty {
+        "set" => {
+            let mut l = vec![sx::atom("S")];
+            l.extend(keys().map(|k| sx::xs(&k)));
+            sx::list(l)
+        }
+        "mapstr" => map(&|i| sx::xs(&format!("v{}", i))),
+        "mapint" => map(&|i| sx::list(vec![sx::atom("i"), sx::int(i as i64 - 7)])),
+        "mapoptstr" => map(&|i| if i % 3 == 0 { sx::atom("-") } else { sx::list(vec![sx::atom("some"), sx::xs("x")]) }),
+        "mapval" => map(&|i| sx::list(vec![sx::atom("j"), jint(i)])),
+        "mapmapstr" => map(&|i| sx::list(vec![sx::atom("m"), sx::list(vec![sx::xs("a"), sx::xs(&format!("{}", i))])])),
+        "mapset" => map(&|i| sx::list(vec![sx::atom("S"), sx::xs(&nkey(i))])),
+        // one member that is itself a big set / map
+        "mapset-inner" => sx::list(vec![sx::atom("m"), sx::list(vec![sx::xs("big"), sized_value("set", n)?])]),
+        "mapmapstr-inner" => sx::list(vec![sx::atom("m"), sx::list(vec![sx::xs("big"), sized_value("mapstr", n)?])]),
+        "info" => {
+            let mut is = vec![sx::atom("l")];
+            is.extend(keys().map(|k| sx::xs(&k)));
+            mkrec(vec![sx::xs("v"), sx::xs("p"), sx::xs("1"), sx::xs("u"), sx::list(is)])
+        }
+        // parameters holding a set-shaped object, a map-shaped object, an array
+        "req-setobj" => mkrec(vec![sx::atom("-"), sx::atom("-"), sx::atom("-"), sx::xs("a.B"), big_obj(&|_| sx::tagged("o", vec![]))]),
+        "req-mapobj" => mkrec(vec![sx::atom("-"), sx::atom("-"), sx::atom("-"), sx::xs("a.B"), big_obj(&jint)]),
+        "req-array" => mkrec(vec![sx::atom("-"), sx::atom("-"), sx::atom("-"), sx::xs("a.B"), big_arr()]),
+        "reply-setobj" => mkrec(vec![sx::atom("-"), sx::atom("-"), big_obj(&|_| sx::tagged("o", vec![]))]),
+        "reply-array" => mkrec(vec![sx::atom("-"), sx::atom("-"), big_arr()]),
+        _ => return None,
+    })
+}
+
+pub const SIZED: &[(&str, &str)] = &[
+    ("set", "set"),
+    ("mapstr", "mapstr"),
+    ("mapint", "mapint"),
+    ("mapoptstr", "mapoptstr"),
+    ("mapval", "mapval"),
+    ("mapmapstr", "mapmapstr"),
+    ("mapset", "mapset"),
+    ("mapset-inner", "mapset"),
+    ("mapmapstr-inner", "mapmapstr"),
+    ("info", "info"),
+    ("req-setobj", "req"),
+    ("req-mapobj", "req"),
+    ("req-array", "req"),
+    ("reply-setobj", "reply"),
+    ("reply-array", "reply"),
+];
+
+fn boundary_cases(thorough: bool) -> Vec<Case> {
+    let mut out = vec![];
+    for (shape, ty) in SIZED {
+        for &n in SIZES {
+            // quick: the two largest sizes for the wire types the property names first, 4096 for the rest
+            let primary = matches!(*shape, "set" | "mapstr" | "info" | "req-setobj" | "reply-array" | "mapset-inner");
+            if !thorough && n > 4096 && !primary {
+                continue;
+            }
+            let Some(v) = sized_value(shape, n) else { continue };
+            out.push(Case {
+                input: with_table(&sx::tagged("enc", vec![sx::atom(*ty), v.clone()])),
+                tags: vec!["enc".into(), "size-boundary".into(), format!("size:{}", n), format!("shape:{}", shape)],
+            });
+            // the decode direction on the real encoding of that value (text, bytes and Value entry points),
+            // as it is and with one spoilt member at the very end
+            if matches!(*shape, "set" | "mapstr" | "mapset-inner" | "info") {
+                if let Some(tree) = real_encoding(ty, &v) {
+                    out.push(Case {
+                        input: with_table(&sx::tagged("dec", vec![sx::atom(*ty), tree.clone()])),
+                        tags: vec!["dec".into(), "size-boundary".into(), format!("size:{}", n), format!("shape:{}", shape)],
+                    });
+                    if let Some(mut es) = obj_entries(&tree) {
+                        if *shape != "info" {
+                            es.push(sx::list(vec![sx::xs("zzz-last"), sx::list(vec![sx::atom("i"), sx::atom("5")])]));
+                            out.push(Case {
+                                input: with_table(&sx::tagged("dec", vec![sx::atom(*ty), mkobj(es)])),
+                                tags: vec!["dec".into(), "size-boundary".into(), "mut:bad-last-member".into(), format!("size:{}", n)],
+                            });
+                        }
+                    }
+                }
+            }
+        }
+    }
+    out
+}
+
 impl Suite for SerdeSuite {
     fn generate(&self, ctx: &Ctx) -> Vec<Case> {
         let mut out: Vec<Case> = corpus("serde")
             .into_iter()
             .map(|input| Case { input: with_table(&input), tags: vec!["corpus".into()] })
             .collect();
+        out.extend(boundary_cases(ctx.thorough));
         let mut r = Rng::new(ctx.seed);
         let (n_enc, n_dec) = if ctx.thorough { (30000, 40000) } else { (3000, 4000) };
         for i in 0..n_enc {
